@@ -134,6 +134,19 @@ impl Engine for VmEngine {
     fn gen(&self, rng: &mut Rng, tier: Tier, idx: usize) -> Vec<String> {
         let mut ops = vec![];
         let style = idx % 8;
+        if idx % 16 == 2 {
+            // one program on fresh VMs with every value-stack size of a range: each instruction
+            // that pushes or declares slots meets a nearly full stack at some size
+            let size = rng.range(1, 4) as usize;
+            let m = gen_program(rng, &GenOpts { size, with_submodules: false });
+            let tok = module_tok(&m);
+            let from = rng.range(2, 6) as usize;
+            for s in from..from + 24 {
+                ops.push(format!("vm new mem=409600 stack={s} calls=32"));
+                ops.push(format!("vm run {tok} budget=2000"));
+            }
+            return ops;
+        }
         let (mem, stack, calls) = match style {
             5 => (*rng.pick(&[2000usize, 4000, 8000, 20000]), 256, 256),
             6 => (409600, *rng.pick(&[4usize, 8, 16, 32]), *rng.pick(&[2usize, 4, 8])),
@@ -196,6 +209,16 @@ impl Engine for VmEngine {
             // natives iterate over a copy of the rows; before, they read freed storage)
             run("setvar($74,array([int(#3),int(#1),int(#2)])),setglobal($67,call($7374642e6d696e5f62795f6b6579,[closure([$6b6579,$76616c],[append(readvar($76616c),readvar($74)),append(readvar($76616c),readvar($74)),append(readvar($76616c),readvar($74)),append(readvar($76616c),readvar($74)),append(readvar($76616c),readvar($74)),append(readvar($76616c),readvar($74)),return(readvar($76616c))]),readvar($74)])),setglobal($68,len(readvar($74)))", ""),
             run("setvar($74,array([int(#3),int(#1),int(#2)])),setglobal($67,call($7374642e736f727465645f62795f6b6579,[closure([$6b6579,$76616c],[append(readvar($76616c),readvar($74)),append(readvar($76616c),readvar($74)),append(readvar($76616c),readvar($74)),append(readvar($76616c),readvar($74)),append(readvar($76616c),readvar($74)),append(readvar($76616c),readvar($74)),return(readvar($76616c))]),readvar($74)])),setglobal($68,len(readvar($74)))", ""),
+            // for-each entered with 0-3 free slots (BeginForEach declares four slots in a row)
+            {
+                let m = "mod([],[fn($6d61696e,[],[setvar($74,array([int(#1),int(#2)])),foreach($69,$6b,$76,readvar($74),composite($5f,[setglobal($67,readvar($76))]))])],[])";
+                let mut ops = vec![];
+                for s in 2..14 {
+                    ops.push(format!("vm new mem=409600 stack={s} calls=32"));
+                    ops.push(format!("vm run {m} budget=2000"));
+                }
+                ops
+            },
             // known finding K2: == on a table that contains itself recurses without bound
             run("setvar($74,table),setprop(readvar($74),readvar($74),int(#0)),setglobal($67,eq(readvar($74),readvar($74)))", ""),
             // nested budget (F9): a sort whose key function loops; the whole run has one budget
